@@ -53,10 +53,18 @@ def _note_raised(fn, items, results):
             RAISED.append((getattr(fn, '__name__', str(fn)), r[1][14:] + ': ' + str(r[3])[-600:], repr(x)[:1500]))
     return results
 
+def _worker_init():
+    # a worker must not outlive the check that started it (an orphaned worker keeps the check's output pipe open)
+    try:
+        import ctypes, signal
+        ctypes.CDLL('libc.so.6', use_errno=True).prctl(1, signal.SIGKILL)      # PR_SET_PDEATHSIG
+    except Exception:
+        pass
+
 def _run_block(fn, block, workers):
     from concurrent.futures.process import BrokenProcessPool
     try:
-        with ProcessPoolExecutor(max_workers=min(workers, max(1, len(block)))) as ex:
+        with ProcessPoolExecutor(max_workers=min(workers, max(1, len(block))), initializer=_worker_init) as ex:
             return list(ex.map(fn, block, chunksize=max(1, len(block) // (4 * workers))))
     except BrokenProcessPool:
         if len(block) == 1:
@@ -76,7 +84,7 @@ def pmap(fn, items, chunk=64, workers=16):
     if len(items) < 200:
         return _note_raised(fn, items, [safe(x) for x in items])
     try:
-        with ProcessPoolExecutor(max_workers=workers) as ex:
+        with ProcessPoolExecutor(max_workers=workers, initializer=_worker_init) as ex:
             return _note_raised(fn, items, list(ex.map(safe, items, chunksize=chunk)))
     except BrokenProcessPool:
         out = []
